@@ -29,13 +29,22 @@ GEN_EFF = 'chess::move_generator::MoveGenerator::generate_moves_and_lazily_updat
 SERR = AB + 'SearchError'
 
 
+SHRINKERS = {'retain', 'retain_mut', 'remove', 'swap_remove', 'truncate', 'clear', 'pop', 'drain', 'split_off', 'dedup', 'dedup_by', 'dedup_by_key', 'drain_filter', 'extract_if'}
+
+
 def search_outcomes(ctx):
     facts = ctx.facts
     opaque = {n for n in facts.fns if n.startswith('chess::move_generator') or n.startswith(AB + 'prioritize')}
     opaque |= {AB + 'SearchContext::reset_stats'}
     ro = {BOARD + '::turn', AB + 'SearchContext::search_depth'}
     ctx.touch(SEARCH)
-    return Engine(facts, opaque=opaque, readonly=ro).run(SEARCH)
+    try:
+        return Engine(facts, opaque=opaque, readonly=ro).run(SEARCH)
+    except PathLimit:
+        # the root routine itself plays moves (a filter over the candidates that tries each one): keep move application opaque so that the
+        # paths of the routine are still enumerated and reported for what they do with the candidate list
+        opaque2 = opaque | {CHESSMOVE + '::apply', CHESSMOVE + '::undo'} | {n for n in facts.fns if n.startswith('chess::evaluate::')}
+        return Engine(facts, opaque=opaque2, readonly=ro, max_paths=20000).run(SEARCH)
 
 
 def empty_guard(o):
@@ -98,6 +107,15 @@ def r1_declared_outcomes(ctx, rule_prefix='C07.R1'):
         g = empty_guard(o)
         calls = [e[1] for e in o.events if e[0] == 'call']
         ok = g == 1 and GEN_EFF in calls and not any('par_iter' in x for x in calls)
+        # ... and the list tested is the generated list: nothing may take candidates out of it first (a filter that drops every legal move
+        # turns "no move available" into an answer for a position that has moves)
+        shrunk = [x for x in calls if x.rsplit('::', 1)[-1] in SHRINKERS] + [e[1] for e in o.events if e[0] == 'adapter' and isinstance(e[1], str) and e[1].rsplit('::', 1)[-1] in SHRINKERS]
+        if shrunk:
+            ok = False
+            ctx.ob(rule, SEARCH, 'the root list tested for emptiness is the generated list (no candidate is removed before the test)', False,
+                   found=sorted(set(shrunk)), expected='generate; if candidates.is_empty() { return Err(NoAvailableMoves) }',
+                   why='whenever the side to move has a legal move the search must answer with one; removing candidates before the emptiness test '
+                       'makes it answer NoAvailableMoves in positions where every legal move is filtered out')
     ctx.ob(rule, SEARCH, 'Err(NoAvailableMoves) returned when the root move list is empty' if seen['NoAvailableMoves'] else
            'NoAvailableMoves is never constructed', ok and bool(seen['NoAvailableMoves']),
            found=[[show_cond(c) for c in o.conds] for o in seen['NoAvailableMoves']][:2] or 'no path constructs SearchError::NoAvailableMoves',
@@ -131,7 +149,7 @@ def r1_declared_outcomes(ctx, rule_prefix='C07.R1'):
     for v in variants:
         ctx.ob(rule, SERR, 'variant %s is constructed' % v, v in built, found=sorted(built), expected=variants, nontrivial=False)
     # depth - 1 dominated by the depth guard: the closure computes search_depth() - 1
-    clo = SEARCH + '::{closure#0}'
+    clo = par_task(facts, SEARCH)
     if facts.fns.get(clo) is not None:
         ctx.touch(clo)
 
@@ -166,7 +184,7 @@ def r2_no_fabrication(ctx):
     oks = [o for o in outs if o.kind == 'return' and is_ok_result(o.value)]
     okv = bool(oks) and all(any(s[0] == 'call' and s[1].endswith('Vec::<T, A>::pop') for s in subterms(o.value)) for o in oks)
     ctx.ob(rule, SEARCH, 'returned move is popped from the scored list', okv, found=[show(o.value)[:120] for o in oks][:2], expected='scored_moves.pop().1')
-    clo = SEARCH + '::{closure#0}'
+    clo = par_task(facts, SEARCH)
     eng = Engine(facts, opaque={MINIMAX, CHESSMOVE + '::apply', CHESSMOVE + '::undo', BOARD + '::toggle_turn',
                                 'chess::move_generator::MoveGenerator::new'}, readonly={AB + 'SearchContext::search_depth'})
     couts = eng.run(clo)
@@ -203,7 +221,7 @@ def r3_neutrality(ctx):
                  'state changed through a raw mutator has no undo registered on the paths that return early',
                  keep=lambda s: s['function'] in sreach or 'floor' in s['instance'], floor=1)
     # the root closure only touches clones: it captures the board by shared reference
-    clo = facts.fns.get(SEARCH + '::{closure#0}')
+    clo = facts.fns.get(par_task(facts, SEARCH))
     if clo is not None:
         env_ty = clo.local_ty(1)
         ctx.ob(rule, clo.name, 'parallel root task takes its environment by shared reference (Fn): can only clone the board',
